@@ -23,6 +23,7 @@ def _(c):
     c.hints['q'] = dict(cls='ArrayDelayQueue', exact=True)
     c.requires('wf_sim(sim) and wf_queue(q) and q.num_reactions == sim.num_reactions')
     c.requires('len(timepoints) >= 1')
+    c.requires('sim.dt > 0 and timepoints[0] >= sim.initial_time and q.next_queue_time >= sim.initial_time and q.dt > 0')
     c.assume('forall(lambda k: U(k) > 0)', 'uniform_rv() == 0 excluded')
     main = c.loop(0)
     main.also_modifies('kappa', 'ghost:pvals', 'c_current_state', 'c_propensity', 'c_results', 'c_volume_trace', 'c_delay_rxns',
@@ -34,6 +35,9 @@ def _(c):
                    label='queue-wf')
     main.invariant('rule_step == 0 or rule_step == 1', label='rule-flag')
     main.invariant('cell_divided == 0', label='not-yet-divided')
+    main.invariant('delta_t == sim.dt and current_time <= next_vol_time and next_vol_time <= current_time + delta_t', label='delta-clock-aligned-with-the-current-time')
+    main.invariant('current_index == num_timepoints or c_timepoints[current_index] >= current_time', label='next-row-is-not-in-the-past')
+    main.invariant('current_time <= q.next_queue_time', label='delay-queue-clock-is-not-in-the-past')
     main.step('forall(lambda r: implies(0 <= r and r < num_reactions, c_propensity[r] == '
               'ufun("svprop", sim, r, %s, ghost("pvals"), head(current_volume), head(current_time))))' % XR, label='volume-scaled-propensities')
     main.step('Lambda == sum_(c_propensity, num_reactions)', label='total-propensity')
